@@ -18,12 +18,14 @@ from vlib import Infra
 
 # property -> (families enumerated, predicates that decide it)
 PROPS = {
-    "C06": (["accepted", "failed"], ["Exact", "StreamExact"]),
+    # the line reaches the processor through the syslog ingester in the daemon: the framed delivery is judged by the
+    # property's own predicate too (C07 demands in addition that framed = direct)
+    "C06": (["accepted", "failed"], ["Exact", "StreamExact", "FramedExact"]),
     "C07": (["accepted", "failed", "hostile", "mutants", "noise", "pids"],
-            ["Framed", "FramedExact", "FramedUniversal", "FramedPeer", "FifoEq", "AuditNewline"]),
-    "C11": (["accepted", "failed", "hostile", "mutants", "noise", "pids"], ["Universal", "StreamUniversal"]),
-    "C17": (["hostile"], ["Peer", "StreamPeer"]),
-    "C19": (["accepted", "failed", "hostile", "mutants", "noise", "pids"], ["Counter", "StreamCounter"]),
+            ["Framed", "FramedExact", "FramedUniversal", "FramedCounter", "FramedPeer", "FifoEq", "AuditNewline"]),
+    "C11": (["accepted", "failed", "hostile", "mutants", "noise", "pids"], ["Universal", "StreamUniversal", "FramedUniversal", "FifoEq"]),
+    "C17": (["hostile"], ["Peer", "StreamPeer", "FramedPeer"]),
+    "C19": (["accepted", "failed", "hostile", "mutants", "noise", "pids"], ["Counter", "StreamCounter", "FramedCounter"]),
     "C05": (["accepted", "failed", "hostile", "mutants", "pids"], ["Login", "Universal", "StreamLoginStable"]),
 }
 
@@ -161,7 +163,7 @@ def run(ctx, prop):
     conc = (4 if ctx.quick else 12)
     if len(vecs) > 60000:
         conc = 4
-    tp, stats = run_vectors(ctx, vecs, conc, fifo_every=(1 if prop == "C07" else 0))
+    tp, stats = run_vectors(ctx, vecs, conc, fifo_every=(1 if prop == "C07" else 7 if prop == "C11" else 0))
     bad, nlines, states = validate(ctx, tp, "main")
     nl_lines = 0
     if prop == "C07":
